@@ -324,12 +324,40 @@ func genEntityOpt(r *vh.Rand, second bool, forcedName string) *entityDecl {
 			}
 			d.Schemas = append(d.Schemas, sc)
 		}
+		// an enum and a oneof declared in the entity block (the other two arms of RangeNestedSchemas)
+		var enumName, oneofName string
+		if r.Chance(50) {
+			enumName = vh.Pick(r, []string{"Kind", "Colour", "level_type", "Mode"}) + d.schemaSuffix()
+			opts := [][]string{{"A", "B"}, {"RED", "GREEN", "DARK_BLUE"}, {"LOW"}, {"UNSPECIFIED", "ON", "OFF"}}
+			d.Schemas = append(d.Schemas, eSchema{Kind: 2, Name: enumName, Options: vh.Pick(r, opts)})
+		}
+		if r.Chance(40) {
+			oneofName = vh.Pick(r, []string{"Choice", "Payload", "Either"}) + d.schemaSuffix()
+			var opts []uField
+			for _, f := range genFields(r, 1, 3) {
+				f.Required, f.Optional, f.SayFalse = false, false, false
+				opts = append(opts, f)
+			}
+			if pos := r.Intn(len(d.Schemas) + 1); true {
+				sc := eSchema{Kind: 1, Name: oneofName, Fields: opts}
+				d.Schemas = append(d.Schemas[:pos], append([]eSchema{sc}, d.Schemas[pos:]...)...)
+			}
+		}
 		targets := []string{strcase.ToCamel(d.Name) + "Keys", strcase.ToCamel(d.Name) + "Data"}
 		for _, sc := range d.Schemas {
-			targets = append(targets, sc.Name, sc.Name)
+			if sc.Kind == 0 {
+				targets = append(targets, sc.Name, sc.Name)
+			}
 		}
 		ref := func(name string) uField {
-			return uField{Name: name, Obj: vh.Pick(r, targets), PType: 11, J5Kind: "object", Required: r.Chance(20), Bang: r.Bool()}
+			u := uField{Name: name, Obj: vh.Pick(r, targets), PType: 11, J5Kind: "object", Required: r.Chance(20), Bang: r.Bool()}
+			switch {
+			case enumName != "" && r.Chance(25):
+				u.Obj, u.RefKind, u.PType, u.J5Kind = enumName, "enum", 14, "enum"
+			case oneofName != "" && r.Chance(25):
+				u.Obj, u.RefKind, u.J5Kind = oneofName, "oneof", "oneof"
+			}
+			return u
 		}
 		if r.Chance(60) {
 			d.Data = append(d.Data, ref("refField"))
